@@ -12,7 +12,14 @@
 //!                E (cbuffer without members), gr | gv | go (the group is written as register space / second argument
 //!                of vk::binding / register space g+1 overridden by [[rssl::bind_group(g)]]; default: the attribute),
 //!                ri<k> (explicit register index), vi<k> (explicit [[vk::binding(k)]] index), sp<k> (static sampler
-//!                property set k), ns (declared inside `namespace NS<i>`)
+//!                property set k), ns (declared inside `namespace NS<i>`),
+//!                T<spelling> (how the type is spelled): [N] step* [k] [x] [p] with steps a (`typedef <cur> X;`),
+//!                c (`typedef const <cur> X;`), d<n> (`typedef <cur> X[n];`), e<n> (`typedef const <cur> X[n];`) applied
+//!                from the object type outwards, the global is declared with the last name; N = the typedefs live in
+//!                `namespace TN<i>`; k = `const` written on the global; x = `extern` written; p = the template argument
+//!                of the object type goes through a typedef.  The declarator dimensions of `arr` wrap the named type.
+//!                j (joined: a further declarator of the previous resource's declaration, `T a.., b..;` — type, storage,
+//!                attributes are shared, dimensions / register annotation / static sampler are per declarator)
 //!   helper   : name:uses:calls:statics[:opts]   comma separated indices; a use may carry a shape letter (`3w` = inside a
 //!                while condition, see `SHAPES`); opts: r (returns int), d<uses> (parameters whose default value reads
 //!                these resources), fd (declared before all definitions; also for entries)
@@ -42,6 +49,131 @@ pub enum GSpell {
     Over,
 }
 
+/// one `typedef [const] <cur> X[dim]?;`
+#[derive(Clone, Copy, PartialEq, Debug)]
+pub struct TdStep {
+    pub is_const: bool,
+    pub dim: Option<u32>,
+}
+
+/// how the type of a resource global is spelled in the source
+#[derive(Clone, PartialEq, Debug, Default)]
+pub struct Spelling {
+    pub ns: bool,
+    pub steps: Vec<TdStep>,
+    pub const_kw: bool,
+    pub extern_kw: bool,
+    pub param_td: bool,
+}
+
+impl Spelling {
+    pub fn is_plain(&self) -> bool {
+        *self == Spelling::default()
+    }
+
+    pub fn has_typedef(&self) -> bool {
+        !self.steps.is_empty() || self.param_td
+    }
+
+    /// array dimensions the typedef chain contributes, outermost (= last typedef) first
+    pub fn typedef_dims(&self) -> Vec<u32> {
+        self.steps.iter().rev().filter_map(|s| s.dim).collect()
+    }
+
+    pub fn encode(&self) -> String {
+        let mut s = String::from("T");
+        if self.ns {
+            s.push('N');
+        }
+        for st in &self.steps {
+            match (st.is_const, st.dim) {
+                (false, None) => s.push('a'),
+                (true, None) => s.push('c'),
+                (false, Some(n)) => s.push_str(&format!("d{}", n)),
+                (true, Some(n)) => s.push_str(&format!("e{}", n)),
+            }
+        }
+        if self.const_kw {
+            s.push('k');
+        }
+        if self.extern_kw {
+            s.push('x');
+        }
+        if self.param_td {
+            s.push('p');
+        }
+        s
+    }
+
+    /// the text after the leading `T`
+    pub fn decode(text: &str) -> Option<Spelling> {
+        let mut sp = Spelling::default();
+        let cs: Vec<char> = text.chars().collect();
+        let mut i = 0;
+        if cs.first() == Some(&'N') {
+            sp.ns = true;
+            i = 1;
+        }
+        while i < cs.len() && matches!(cs[i], 'a' | 'c' | 'd' | 'e') {
+            let c = cs[i];
+            i += 1;
+            let mut dim = None;
+            if c == 'd' || c == 'e' {
+                let st = i;
+                while i < cs.len() && cs[i].is_ascii_digit() {
+                    i += 1;
+                }
+                let n: u32 = cs[st..i].iter().collect::<String>().parse().ok()?;
+                if n == 0 {
+                    return None;
+                }
+                dim = Some(n);
+            }
+            sp.steps.push(TdStep { is_const: c == 'c' || c == 'e', dim });
+        }
+        for (flag, c) in [(&mut sp.const_kw, 'k'), (&mut sp.extern_kw, 'x'), (&mut sp.param_td, 'p')] {
+            if i < cs.len() && cs[i] == c {
+                *flag = true;
+                i += 1;
+            }
+        }
+        if i != cs.len() || sp.is_plain() || (sp.ns && !sp.has_typedef()) {
+            return None;
+        }
+        Some(sp)
+    }
+
+    /// (typedef lines in front of the declaration, the type name the global is declared with)
+    pub fn render(&self, i: usize, base: &str) -> (String, String) {
+        let q = if self.ns { format!("TN{}::", i) } else { String::new() };
+        let mut lines: Vec<String> = Vec::new();
+        let mut cur_in = base.to_string();
+        let mut cur_out = base.to_string();
+        if self.param_td {
+            if let (Some(o), true) = (base.find('<'), base.ends_with('>')) {
+                lines.push(format!("typedef {} Tp{};", &base[o + 1..base.len() - 1], i));
+                cur_in = format!("{}<Tp{}>", &base[..o], i);
+                cur_out = format!("{}<{}Tp{}>", &base[..o], q, i);
+            }
+        }
+        for (j, st) in self.steps.iter().enumerate() {
+            let name = format!("Ty{}_{}", i, j);
+            let dim = st.dim.map(|n| format!("[{}]", n)).unwrap_or_default();
+            lines.push(format!("typedef {}{} {}{};", if st.is_const { "const " } else { "" }, cur_in, name, dim));
+            cur_in = name.clone();
+            cur_out = format!("{}{}", q, name);
+        }
+        let text = if lines.is_empty() {
+            String::new()
+        } else if self.ns {
+            format!("namespace TN{} {{ {} }}\n", i, lines.join(" "))
+        } else {
+            format!("{}\n", lines.join("\n"))
+        };
+        (text, cur_out)
+    }
+}
+
 #[derive(Clone, Debug)]
 pub struct XRes {
     pub name: String,
@@ -57,9 +189,55 @@ pub struct XRes {
     pub vk_index: Option<u32>,
     pub sprops: u32,
     pub ns: bool,
+    pub spell: Spelling,
+    pub joined: bool,
 }
 
 impl XRes {
+    /// what the attributes in front of a declaration say about the bind group (shared by all its declarators)
+    pub fn attr_group(&self) -> Option<(GSpell, u32)> {
+        match (self.gspell, self.group) {
+            (GSpell::Reg, _) | (_, None) => None,
+            (s, Some(g)) => Some((s, g)),
+        }
+    }
+
+    /// may `self` be a further declarator of the declaration `head` starts
+    pub fn joins(&self, head: &XRes) -> bool {
+        self.kind == head.kind
+            && self.kind != "cbuffer"
+            && self.stat == head.stat
+            && self.spell == head.spell
+            && self.bl == head.bl
+            && !self.ns
+            && !head.ns
+            && self.vk_index == head.vk_index
+            && self.attr_group() == head.attr_group()
+    }
+
+    /// all array dimensions of the global's type, outermost first: the declarator's, then the typedefs'
+    pub fn dims_all(&self) -> Vec<Option<u32>> {
+        let mut d: Vec<Option<u32>> = match self.arr {
+            ArrLen::No => vec![],
+            ArrLen::Sized(n) => vec![Some(n)],
+            ArrLen::Unsized => vec![None],
+            ArrLen::Nested(a, b) => vec![Some(a), Some(b)],
+        };
+        d.extend(self.spell.typedef_dims().into_iter().map(Some));
+        d
+    }
+
+    /// the array shape of the declared type, whatever spelling produced it
+    pub fn eff_arr(&self) -> ArrLen {
+        let d = self.dims_all();
+        match d.as_slice() {
+            [] => ArrLen::No,
+            [Some(n)] => ArrLen::Sized(*n),
+            [None] => ArrLen::Unsized,
+            [a, b, ..] => ArrLen::Nested(a.unwrap_or(0), b.unwrap_or(0)),
+        }
+    }
+
     pub fn plain(name: &str, kind: &str) -> XRes {
         XRes {
             name: name.into(),
@@ -75,6 +253,8 @@ impl XRes {
             vk_index: None,
             sprops: 0,
             ns: false,
+            spell: Spelling::default(),
+            joined: false,
         }
     }
 }
@@ -267,6 +447,12 @@ impl Case {
                 if r.ns {
                     o.push("ns".into());
                 }
+                if !r.spell.is_plain() {
+                    o.push(r.spell.encode());
+                }
+                if r.joined {
+                    o.push("j".into());
+                }
                 with_opts(base, o)
             })
             .collect();
@@ -423,17 +609,35 @@ impl Case {
                     "gv" => r.gspell = GSpell::Vk,
                     "go" => r.gspell = GSpell::Over,
                     "ns" => r.ns = true,
+                    "j" => r.joined = true,
                     s if s.starts_with("ri") => r.reg_index = Some(s[2..].parse().ok()?),
                     s if s.starts_with("vi") => r.vk_index = Some(s[2..].parse().ok()?),
                     s if s.starts_with("sp") => r.sprops = s[2..].parse().ok()?,
+                    s if s.starts_with('T') => r.spell = Spelling::decode(&s[1..])?,
                     _ => return None,
                 }
             }
             if r.empty && r.kind != "cbuffer" {
                 return None;
             }
+            if !r.spell.is_plain() {
+                let has_reg = r.reg_index.is_some() || (r.group.is_some() && matches!(r.gspell, GSpell::Reg | GSpell::Over));
+                // a cbuffer block has no type; `static extern` is a modifier conflict; a template argument needs a template;
+                // `register(..)` is refused on a typedef'd array (the typer looks for the object under one modifier of the
+                // *named* type: seen, not C05's); a static sampler is one sampler
+                if r.kind == "cbuffer"
+                    || (r.spell.extern_kw && r.stat)
+                    || (r.spell.param_td && !type_of_kind(&r.kind)?.ends_with('>'))
+                    || (!r.spell.typedef_dims().is_empty() && (has_reg || r.ss))
+                {
+                    return None;
+                }
+            }
             // a struct or a multi-dimensional array accepts no register annotation
             if (r.kind == "struct" || matches!(r.arr, ArrLen::Nested(..))) && (r.reg_index.is_some() || matches!(r.gspell, GSpell::Reg | GSpell::Over)) {
+                return None;
+            }
+            if r.joined && !res.last().is_some_and(|h: &XRes| r.joins(h)) {
                 return None;
             }
             res.push(r);
@@ -575,10 +779,8 @@ impl Case {
             return if res.empty { None } else { Some(format!("{}{}_v", q, res.name)) };
         }
         let mut s = format!("{}{}", q, res.name);
-        match res.arr {
-            ArrLen::No => {}
-            ArrLen::Sized(_) | ArrLen::Unsized => s.push_str("[0u]"),
-            ArrLen::Nested(..) => s.push_str("[0u][0u]"),
+        for _ in res.dims_all() {
+            s.push_str("[0u]");
         }
         if res.kind == "struct" {
             s.push_str(".t");
@@ -589,7 +791,7 @@ impl Case {
     /// an int-valued expression that reads resource `r`, for default arguments and global initialisers
     pub fn value_expr(&self, r: usize) -> Option<String> {
         let res = &self.res[r];
-        if res.stat || res.ss || matches!(res.arr, ArrLen::Unsized | ArrLen::Nested(..)) {
+        if res.stat || res.ss || matches!(res.eff_arr(), ArrLen::Unsized | ArrLen::Nested(..)) {
             return None;
         }
         let m = self.mention(r)?;
@@ -654,16 +856,21 @@ impl Case {
         }
     }
 
+    /// one declaration: resource `i` and the resources joined to it as further declarators
     fn render_resource(&self, i: usize, r: &XRes, s: &mut String) {
+        let (typedefs, type_name) = match type_of_kind(&r.kind) {
+            Some(t) if r.kind != "cbuffer" => r.spell.render(i, t),
+            _ => (String::new(), String::new()),
+        };
+        s.push_str(&typedefs);
         if r.ns {
             s.push_str(&format!("namespace NS{} {{ ", i));
         }
         if r.bl {
             s.push_str("[[rssl::bindless]] ");
         }
-        let mut suffix = String::new();
-        let letter = register_letter(&r.kind);
-        let reg = |index: Option<u32>, space: Option<u32>| -> String {
+        let reg = |x: &XRes, index: Option<u32>, space: Option<u32>| -> String {
+            let letter = register_letter(&x.kind);
             let mut parts = Vec::new();
             if let Some(k) = index {
                 parts.push(format!("{}{}", letter, k));
@@ -673,26 +880,24 @@ impl Case {
             }
             if parts.is_empty() { String::new() } else { format!(" : register({})", parts.join(", ")) }
         };
+        // the register annotation of one declarator
+        let suffix_of = |x: &XRes| -> String {
+            match (x.gspell, x.group) {
+                (GSpell::Reg, Some(g)) => reg(x, x.reg_index, Some(g)),
+                (GSpell::Over, Some(g)) => reg(x, x.reg_index, Some(g + 1)),
+                _ => reg(x, x.reg_index, None),
+            }
+        };
         match (r.gspell, r.group) {
-            (GSpell::Attr, Some(g)) => {
-                s.push_str(&format!("[[rssl::bind_group({})]] ", g));
-                suffix = reg(r.reg_index, None);
-            }
-            (GSpell::Reg, Some(g)) => suffix = reg(r.reg_index, Some(g)),
-            (GSpell::Over, Some(g)) => {
-                s.push_str(&format!("[[rssl::bind_group({})]] ", g));
-                suffix = reg(r.reg_index, Some(g + 1));
-            }
-            (GSpell::Vk, Some(g)) => {
-                s.push_str(&format!("[[vk::binding({}, {})]] ", r.vk_index.unwrap_or(0), g));
-                suffix = reg(r.reg_index, None);
-            }
-            (_, None) => suffix = reg(r.reg_index, None),
+            (GSpell::Attr, Some(g)) | (GSpell::Over, Some(g)) => s.push_str(&format!("[[rssl::bind_group({})]] ", g)),
+            (GSpell::Vk, Some(g)) => s.push_str(&format!("[[vk::binding({}, {})]] ", r.vk_index.unwrap_or(0), g)),
+            _ => {}
         }
         if let (Some(k), false) = (r.vk_index, r.gspell == GSpell::Vk && r.group.is_some()) {
             s.push_str(&format!("[[vk::binding({})]] ", k));
         }
         if r.kind == "cbuffer" {
+            let suffix = suffix_of(r);
             if r.empty {
                 s.push_str(&format!("cbuffer {}{} {{}}", r.name, suffix));
             } else {
@@ -702,16 +907,33 @@ impl Case {
             if r.stat {
                 s.push_str("static ");
             }
-            s.push_str(&format!("{} {}", type_of_kind(&r.kind).unwrap(), r.name));
-            match r.arr {
-                ArrLen::No => {}
-                ArrLen::Sized(n) => s.push_str(&format!("[{}]", n)),
-                ArrLen::Unsized => s.push_str("[]"),
-                ArrLen::Nested(a, b) => s.push_str(&format!("[{}][{}]", a, b)),
+            if r.spell.extern_kw {
+                s.push_str("extern ");
             }
-            s.push_str(&suffix);
-            if r.ss {
-                s.push_str(&format!(" = StaticSampler {{ {} }}", super::state::sampler_props(r.sprops).0));
+            if r.spell.const_kw {
+                s.push_str("const ");
+            }
+            s.push_str(&format!("{} ", type_name));
+            let mut k = i;
+            loop {
+                let x = &self.res[k];
+                s.push_str(&x.name);
+                match x.arr {
+                    ArrLen::No => {}
+                    ArrLen::Sized(n) => s.push_str(&format!("[{}]", n)),
+                    ArrLen::Unsized => s.push_str("[]"),
+                    ArrLen::Nested(a, b) => s.push_str(&format!("[{}][{}]", a, b)),
+                }
+                s.push_str(&suffix_of(x));
+                if x.ss {
+                    s.push_str(&format!(" = StaticSampler {{ {} }}", super::state::sampler_props(x.sprops).0));
+                }
+                k += 1;
+                if k < self.res.len() && self.res[k].joined {
+                    s.push_str(", ");
+                } else {
+                    break;
+                }
             }
             s.push(';');
         }
@@ -736,7 +958,9 @@ impl Case {
         }
         s.push_str("struct MeshVertex { float4 position : SV_Position; };\nstruct TaskPayload { uint start_location; };\ngroupshared TaskPayload lds_payload;\n");
         for (i, r) in self.res.iter().enumerate() {
-            self.render_resource(i, r, &mut s);
+            if !r.joined {
+                self.render_resource(i, r, &mut s);
+            }
         }
         let helper_sig = |i: usize, h: &XFn, with_defaults: bool| -> String {
             let mut params: Vec<String> = (0..self.overload_arity(i)).map(|k| format!("int p{}", k)).collect();
